@@ -271,6 +271,14 @@ theorem delete_recursive_is_specDelete (s : St) (inv : TreeInv s) (n : String) (
     rw [List.isSuffixOf_iff_suffix.mpr hs] at h2
     cases h2
 
+/-- known finding rename/onto-ancestor-loses-entries: /b/c → /b with /b/c/c present: the rename reports success and
+    /b/c/c's image /b/c is gone (FULL-STRENGTH "rename never loses an entry" is false) -/
+theorem rename_onto_ancestor_loses_witness :
+    let s := run {} [.create ["c", "c", "b"] witnessDir false]
+    (s.ents.map (·.1)) = [["c", "c", "b"], ["c", "b"], ["b"]] ∧
+    (renameEntry s ["c", "b"] ["b"]).2.1 = Res.ok ∧
+    ((renameEntry s ["c", "b"] ["b"]).1.ents.map (·.1)) = [["b"]] := by decide
+
 /-! ### rename moves -/
 
 /-- renaming a plain file to a new name whose directory exists moves exactly that entry: it shows under the new name
